@@ -39,7 +39,7 @@ def fresh_snapshot(src: str, hashseed: int) -> str:
     env["PYTHONPATH"] = ROOT
     env["PYTHONDONTWRITEBYTECODE"] = "1"
     env.pop("TEALER_ROOT_OUTPUT_DIR", None)
-    p = subprocess.run([sys.executable, "-m", "vf.snapshot"], input=src.encode(), stdout=subprocess.PIPE, stderr=subprocess.PIPE, env=env, cwd=ROOT, check=False, timeout=300)
+    p = subprocess.run([sys.executable, "-m", "vf.snapshot"], input=src.encode(), stdout=subprocess.PIPE, stderr=subprocess.PIPE, env=env, cwd=ROOT, check=False, timeout=1800)
     if p.returncode != 0:
         raise Violation("fresh-process-failed", f"hash seed {hashseed}: exit {p.returncode}: {p.stderr.decode()[-400:]}\n{src}")
     out = p.stdout.decode()
